@@ -139,6 +139,17 @@ def p_select_case_in_aliased(Q, I):
     return Q.from_(t).select(Case().when(t.a.isin(I.as_("zz")), 1).else_(0).as_("c")), "paren", None
 
 
+def p_select_in_aliased(Q, I):
+    t = _t()
+    return Q.from_(t).select(t.a, t.a.isin(I.as_("zz")).as_("flag")), "paren", "flag"  # the criterion's alias, not the subquery's
+
+
+def p_join_on_value(Q, I):
+    I = I.as_("j2")
+    t = _t()
+    return Q.from_(t).join(I).on((t.id == I.x) & (t.b == 7)).select(t.a).where(t.a > 8), "paren", "j2"
+
+
 def p_func_arg_aliased(Q, I):
     t = _t()
     return Q.from_(t).select(FN.Coalesce(I.as_("zz"), 0)), "paren", None
@@ -233,7 +244,7 @@ def p_nested_from(Q, I):
     return Q.from_(mid).select(mid.x), "paren", "e2"
 
 
-POS = {f.__name__[2:]: f for f in (p_from, p_from_auto, p_join, p_in, p_in_aliased, p_cmp_aliased, p_func_arg_aliased, p_not_in_aliased, p_and_or_in_aliased, p_select_case_in_aliased, p_notin, p_not_in, p_and_in, p_cmp, p_select_item,
+POS = {f.__name__[2:]: f for f in (p_from, p_from_auto, p_join, p_in, p_in_aliased, p_cmp_aliased, p_func_arg_aliased, p_select_in_aliased, p_join_on_value, p_not_in_aliased, p_and_or_in_aliased, p_select_case_in_aliased, p_notin, p_not_in, p_and_in, p_cmp, p_select_item,
                                    p_select_item_aliased, p_cte, p_setop_right, p_setop_base, p_as_select, p_update_from,
                                    p_delete_in, p_insert_value, p_func_arg, p_case_then, p_having, p_join_on, p_nested_from)}
 
